@@ -112,6 +112,12 @@ CLAIMED = {
    design_ref="DESIGN.md 4.4, 5 (C02)",
    note="Known finding: Python keys(excludemin/excludemax) with the bound omitted drops one key per leaf. Out of reach (DESIGN 9): C single-interior-child root, Python minKey gap.",
    technique="decision-table extraction with affine/polynomial values (clang AST + Python ast), structural pairing rule"),
+ "C01": dict(
+   category="other",
+   text="Structural necessary conditions of sorted-map behaviour, decided from source for all 22 translation units and the Python classes: None-smallest ordering decided before any rich comparison (COMPARE expansions of both headers and Python compare evaluated over the None-ness grid; gates accept None); the slot index used to replace/delete/insert is the one the search produced, insertion only on the absent branch and removal only on the found branch (unique keys), KeyError only for an absent key and before any modification; no modification after a failed conversion and no conversion failure after a modification; first-leaf rollback; the delete path never reports 'first bucket went away' after relinking it; in-place -=/^= guard the aliased operand; Python methods convert before the conversion-free layer. It does NOT decide equality with a reference sorted map over call histories (binary-search correctness over runtime keys, split/unlink paths over reachable shapes).",
+   design_ref="DESIGN.md 4.5, 5 (C01)",
+   note="Necessary conditions only; the behavioural core of C01 is outside static analysis.",
+   technique="finite-grid evaluation of the comparison (clang AST / Python ast), def-use and dominator rules, flag-sensitive dataflow"),
 }
 
 NA_PENDING = "check not built yet (engine under construction); see DESIGN.md section 11"
